@@ -384,6 +384,8 @@ func c17ExecDerived(sc c17Derived) (detail string) {
 
 func TestC17_Derived(t *testing.T) {
 	str := rapid.SampledFrom([]string{"a", "b", "meta", "_default", "h1:8091", "x y"})
+	// an override may be the empty string (no password / no custom CA for the metadata cluster): still an override
+	strE := rapid.SampledFrom([]string{"a", "b", "meta", "_default", "x y", "", ""})
 	durs := rapid.SampledFrom([]string{"1s", "250ms", "2m", "1h", "15s", "90s"})
 	sub := func(rt *rapid.T, label string, keys map[string]*rapid.Generator[string]) map[string]string {
 		ks := make([]string, 0, len(keys))
@@ -410,9 +412,9 @@ func TestC17_Derived(t *testing.T) {
 			sc.Main = map[string]string{}
 		}
 		sc.Meta = sub(rt, "meta", map[string]*rapid.Generator[string]{
-			"hosts": rapid.SampledFrom([]string{"m1", "m1,m2,m3"}), "username": str, "password": str, "bucket": str, "scope": str, "collection": str,
+			"hosts": rapid.SampledFrom([]string{"m1", "m1,m2,m3"}), "username": strE, "password": strE, "bucket": strE, "scope": strE, "collection": strE,
 			"maxQueueSize": ints, "connectionBufferSize": rapid.OneOf(ints, rapid.SampledFrom([]string{"1mb", "10 MB", "0,5gb", "512kb"})),
-			"connectionTimeout": durs, "secureConnection": rapid.SampledFrom([]string{"true", "false", "True", "False", "TRUE", "FALSE", "1", "0", "t", "f", "T", "F"}), "rootCAPath": str,
+			"connectionTimeout": durs, "secureConnection": rapid.SampledFrom([]string{"true", "false", "True", "False", "TRUE", "FALSE", "1", "0", "t", "f", "T", "F"}), "rootCAPath": strE,
 		})
 		sc.Member = sub(rt, "member", map[string]*rapid.Generator[string]{"expirySeconds": ints, "heartbeatInterval": durs, "heartbeatToleranceDuration": durs, "monitorInterval": durs, "timeout": durs})
 		sc.Leader = sub(rt, "leader", map[string]*rapid.Generator[string]{"leaseLockName": str, "leaseLockNamespace": str, "leaseDuration": durs, "renewDeadline": durs, "retryPeriod": durs})
